@@ -557,7 +557,10 @@ fn twin_case<N: ArrayLength, const K: usize>(f: usize, b: usize, op: Op) -> Resu
 
 fn ops_for(len: usize) -> Vec<Op> {
     let mut v = vec![Op::Next, Op::NextBack, Op::Len, Op::AsSlice, Op::Debug, Op::PollsAfterExhaustion];
-    for n in (0..=len + 2).chain([usize::MAX, usize::MAX - 1]) {
+    // huge skip counts whose low bits look small (a narrowed cursor truncates instead of saturating)
+    // next to the all-ones ones
+    let huge: [usize; 9] = [usize::MAX, usize::MAX - 1, 1 << 32, (1 << 32) + 1, 3 << 32, (1 << 16) + 1, 1 << 16, (1 << 63) + 1, u32::MAX as usize + 2];
+    for n in (0..=len + 2).chain(huge) {
         v.push(Op::Nth(n));
         v.push(Op::NthBack(n));
     }
@@ -722,8 +725,9 @@ fn part_b<E: Elem + Clone, N: ArrayLength>(st: &mut Stats, seed: u64, runs: u64)
                 let i = rng.below(lives.len());
                 let len = lives[i].model.len();
                 let big = |rng: &mut Rng| -> usize {
-                    match rng.below(10) {
+                    match rng.below(11) {
                         0 => usize::MAX,
+                        10 => [1usize << 32, (1 << 32) + 1, (5 << 32) + 2, (1 << 16) + 1, (1 << 63) + 1][rng.below(5)],
                         1 => len + rng.below(3),
                         2 => len,
                         _ => rng.below(len.max(1)).min(7 + rng.below(3)),
